@@ -50,7 +50,7 @@ func c17Max(tier string) int {
 // slot kinds: own (own-line: // or /* */ or directive), eol (end of line: // or /* */), mid (inside an expression: /* */ only)
 var c17SlotOrder = []string{"header", "build", "pkgdoc", "pkgtrail", "free1", "d1doc", "d1open", "d1in", "d1own", "d1trail", "d1trail2", "free2", "d2doc", "d2own", "d2eol", "d2mid", "d2trail", "d2trail2", "free3", "d3doc", "d3trail", "eof"}
 
-var c17SlotKind = map[string]string{"header": "own", "build": "build", "pkgdoc": "own", "pkgtrail": "eol", "free1": "own", "d1doc": "own", "d1open": "eol", "d1in": "eol", "d1own": "own",
+var c17SlotKind = map[string]string{"header": "own", "build": "build", "pkgdoc": "own", "pkgtrail": "eolpkg", "free1": "own", "d1doc": "own", "d1open": "eol", "d1in": "eol", "d1own": "own",
 	"d1trail": "eol", "d1trail2": "eol2", "d2trail2": "eol2", "free2": "own", "d2doc": "own", "d2own": "own", "d2eol": "eol", "d2mid": "mid", "d2trail": "eol", "free3": "own", "d3doc": "own", "d3trail": "eol", "eof": "own"}
 
 func c17Render(slots map[string]string, sites string) string {
@@ -140,7 +140,8 @@ func c17Patches() map[string][]*model.Change {
 		out[id] = []*model.Change{ch}
 	}
 	// two changes applied to the same file
-	for _, pair := range [][2]string{{"expr", "funcdecl-replace"}, {"valuedecl", "funcdecl-replace"}, {"valuedecl", "funcdecl"}, {"typedecl", "expr"}, {"expr", "typedecl-replace"}, {"funcdecl-replace", "valuedecl"}} {
+	for _, pair := range [][2]string{{"expr", "funcdecl-replace"}, {"valuedecl", "funcdecl-replace"}, {"valuedecl", "funcdecl"}, {"typedecl", "expr"}, {"expr", "typedecl-replace"}, {"funcdecl-replace", "valuedecl"},
+		{"noop", "funcdecl-replace"}, {"pkg-rename", "funcdecl-replace"}, {"noop", "vardecl-to-const"}, {"pkg-rename", "typedecl-replace"}} {
 		out[pair[0]+"+"+pair[1]] = []*model.Change{single[pair[0]], single[pair[1]]}
 	}
 	return out
@@ -153,6 +154,8 @@ func c17Single() map[string]*model.Change {
 		"typedecl-replace": {Kind: "decl", Lines: model.L("-type T struct {", "-DOTS_1", "-}", "+type T = int")},
 		"vardecl-to-const": {Kind: "decl", Meta: xm, Lines: model.L("-var last = x", "+const last = 3")},
 		"expr":         {Kind: "expr", Meta: xm, Lines: model.L("-foo(x)", "+mark(x)")},
+		"noop":         {Kind: "expr", Meta: xm, Lines: model.L("-pre()", "+pre()")},
+		"pkg-rename":   {Kind: "expr", PkgMinus: "p", PkgPlus: "q", Lines: model.L("-pre()", "+pre()")},
 		"stmt-insert":  {Kind: "stmts", Meta: xm, Lines: model.L(" foo(x)", "+added(x)")},
 		"stmt-elision": {Kind: "stmts", Meta: xm, Lines: model.L("-pre()", " DOTS_1", "-mid(x)", "+mark(x)")},
 		"funcdecl":     {Kind: "decl", Lines: model.L("-func site() {", "+func renamed() {", " DOTS_1", " }")},
@@ -177,6 +180,8 @@ func c17Gen(tier string, emit func(any)) {
 			return []string{fmt.Sprintf("// c%d %s", n, slot), fmt.Sprintf("/* c%d %s */", n, slot), fmt.Sprintf("//go:generate tool%d %s", n, slot)}
 		case "eol":
 			return []string{fmt.Sprintf("// c%d %s", n, slot), fmt.Sprintf("/* c%d %s */", n, slot)}
+		case "eolpkg": // also: two comments on the package line
+			return []string{fmt.Sprintf("// c%d %s", n, slot), fmt.Sprintf("/* c%d %s */", n, slot), fmt.Sprintf("/* c%d %s */ // c%db %s", n, slot, n, slot)}
 		case "eol2":
 			return []string{fmt.Sprintf("// c%d %s", n, slot)}
 		default:
